@@ -275,6 +275,23 @@ def random_history(rng, n, length):
 
 
 def cases(rng, tier):
+    # rosettes (one cell with its full ring of neighbours): the augmented system is square, the exact-inversion path runs and falls back to
+    # the non-negative solver only when negatives are disallowed -- the same frame solved with one option after the other
+    from props.c05 import rosette, noisy
+    for j in range(2 if tier == "quick" else 8):
+        for _ in range(20):
+            ro = rosette(gen.voronoi_tissue(rng, n=int(rng.integers(25, 45)), npts=int(rng.integers(1, 4)), snap=8), rng)
+            if ro is not None and len(ro["cells"]) >= 5:
+                break
+        else:
+            continue
+        ro = noisy(ro, rng, float(rng.choice([0.5, 3.0])))
+        nf = 2
+        specs, times, truth = gen.series(rng, ro, nf, field="random", amp_frac=0.3, renumber=False)
+        t0 = int(rng.integers(0, nf))
+        hist = [["BuildF", t0, 1], ["SolveS", t0, 1], ["SolveS", t0, 0], ["BuildP", t0], ["SolveP", t0, 0], ["SolveS", t0, 3], ["SolveS", t0, 0],
+                ["SolveS", t0, 2], ["SolveS", t0, 0]]
+        yield specs, times, hist, f"rosette{j}/negatives-then-default"
     n = 6 if tier == "quick" else 40
     for k in range(n):
         base = gen.voronoi_tissue(rng, n=int(rng.integers(16, 30)), npts=int(rng.integers(1, 4)), snap=8,
